@@ -1,6 +1,6 @@
 (* C18 - resource_added announces every publication exactly once, on the right context. *)
 From Coq Require Import String List.
-From Asphalt Require Import Ctx.ResModel Ctx.ResProofs Ctx.ResInv Ctx.ResHist.
+From Asphalt Require Import Ctx.ResModel Ctx.ResProofs Ctx.ResInv Ctx.ResHist Ctx.AddTie Gen.Gen_addres.
 Import ListNotations.
 
 (* only operations addressed to a context touch its record, hence its event log *)
@@ -51,3 +51,12 @@ Theorem C18_generation : forall x f v,
   evlog x ++ match free_types x f with [] => [] | ts => [REv ts (fname f) (fdesc f) false] end.
 Proof. exact evlog_store_generated. Qed.
 Print Assumptions C18_generation.
+
+(* in the source on this run the event is dispatched as the LAST stage of both methods, after every check and
+   after the insertion (and the registration of the teardown callback): a call that fails dispatches nothing,
+   and a listener that looks the resource up finds it *)
+Theorem C18_dispatch_is_last :
+  filter (fun a => negb (is_check a)) add_resource_stages = [A_insert; A_register_callback; A_dispatch] /\
+  filter (fun a => negb (fac_is_check a)) add_factory_stages = [F_insert; F_dispatch].
+Proof. exact add_effect_order. Qed.
+Print Assumptions C18_dispatch_is_last.
